@@ -108,6 +108,27 @@ CHECKS["C11"] = dict(
          "denoted value are computed by Literals.tla; the real front end must agree and the compiled program must carry exactly that value.",
     note=PROG_NOTE + " `[u8;0] = 0x_` is not classified (the statement is about integer types).", design="5 (C11)")
 
+CHECKS["C15"] = dict(
+    category="model_checking",
+    technique="TLC-enumerated value / type / map universe with the reference printer ShowValue; print-parse and JSON round trips decided on the real library",
+    text="Values with special printed forms (byte arrays of every length, nested byte arrays, sub-byte ints, u128/u256, empty / singleton "
+         "containers), all values of the C07 universe and maps of 0..6 names: parse(print(x)) = x for values, types, witness / param "
+         "modules and JSON; module text sorted and insertion-order independent; duplicate names rejected.",
+    note="Round trips are observations of the real code; TLA+ contributes the enumerated universe and the canonical text (compared as "
+         "conformance: a different but round-tripping text is a drift note, not a violation).", design="5 (C15)")
+CHECKS["C16"] = dict(
+    category="model_checking",
+    technique="all TLC program families re-run through parse -> print -> parse and through the full lifecycle on the printed text (expected verdict vectors from the reference semantics), in several token layouts",
+    text="For every parseable family text: equal parse tree after print/parse; printed text accepted/rejected like the original and with "
+         "the model's verdict vector.",
+    note=PROG_NOTE, design="5 (C16)")
+CHECKS["C17"] = dict(
+    category="model_checking",
+    technique="identifier table x naming roles enumerated by TLC on a template program whose meaning the model evaluates for every renaming; replay in several layouts",
+    text="406 identifiers (reserved words + suffix x/7/_/_x, case flips, x-prefix, random) x 11 roles; each renamed program and its "
+         "rewritten variant (alias inlined, parentheses, `-> ()`, block arms) must be accepted with the model's verdicts.",
+    note=PROG_NOTE + " Identifiers that are exactly reserved words carry no expectation.", design="5 (C17)")
+
 PENDING = {}
 
 ALL = ["C%02d" % i for i in range(1, 21)]
